@@ -69,6 +69,7 @@ POOLS = {
     "p521": ["p521_0", "p521_1", "p521_x0", "p521_y0"],
 }
 ALGS = list(POOLS)
+TRAILING_ZERO_CERTS = {"rsa2048_0", "rsa3072_1", "rsa4096_0"}  # their leaf certificate's DER ends in a genuine 0x00 byte
 ISK_KEYS = {"p256": "p256_2", "p384": "p384_2"}
 
 E_FILE = ["pub_pem", "pub_der", "raw", "cert_pem", "cert_der", "certca_pem", "certca_der", "priv_pem", "priv_der"]
@@ -123,13 +124,13 @@ def install_fast_rsa_load() -> None:
     ser._vf_c03_fast = True
 
 
-def _make_cert(priv, name: str, ca: bool):
+def _make_cert(priv, name: str, ca: bool, attempt: int = 0):
     from cryptography import x509
     from cryptography.hazmat.primitives import hashes
     from cryptography.x509.oid import NameOID
 
     nm = x509.Name([x509.NameAttribute(NameOID.COMMON_NAME, f"vf-c03 {name} {'CA' if ca else 'leaf'}")])
-    serial = int.from_bytes(hashlib.sha256(f"{name}|{ca}".encode()).digest()[:8], "big") | 1
+    serial = (int.from_bytes(hashlib.sha256(f"{name}|{ca}".encode()).digest()[:8], "big") | 1) + 2 * attempt
     b = (x509.CertificateBuilder().subject_name(nm).issuer_name(nm).public_key(priv.public_key())
          .serial_number(serial).not_valid_before(datetime.datetime(2020, 1, 1))
          .not_valid_after(datetime.datetime(2040, 1, 1))
@@ -168,6 +169,18 @@ def materialize(base_dir: str) -> dict:
         priv = ser.load_der_private_key(b["priv_der"], None, unsafe_skip_rsa_key_validation=True)
         for ca, tag in ((False, "cert"), (True, "certca")):
             c = _make_cert(priv, name, ca)
+            if name in TRAILING_ZERO_CERTS and not ca:
+                # a certificate whose DER ends in 0x00 (the last signature byte) and is not a multiple of 4 long, so that
+                # the zero padding of a certificate block touches a genuine zero: serial numbers are tried in order
+                from cryptography.hazmat.primitives import serialization as _ser
+
+                for attempt in range(1, 6000):
+                    dd = c.public_bytes(_ser.Encoding.DER)
+                    if dd[-1] == 0 and len(dd) % 4:
+                        break
+                    c = _make_cert(priv, name, ca, attempt)
+                else:
+                    raise core.HarnessError(f"no trailing-zero certificate found for {name}")
             b[tag + "_pem"] = c.public_bytes(ser.Encoding.PEM)
             b[tag + "_der"] = c.public_bytes(ser.Encoding.DER)
         # fixture integrity (independent reader): every encoding carries the numbers of index.json
@@ -855,6 +868,9 @@ def _certblock_v1(t: Tally, task: dict, src: Src, names: list, nums: list, alg: 
     for label, encs, _ in assignments(spec, n):
         variants.append(("CertBlockV1.from_config", label, encs))
     variants.append(("CertBlockV1.from_config", "auto-index", ["cert_pem"] * n))
+    # the same configuration with its keys written in another order (a YAML mapping has no order)
+    variants.append(("CertBlockV1.from_config", "keys-reversed", ["cert_pem"] * n))
+    variants.append(("CertBlockV1.from_config", "keys-rotated", ["cert_pem"] * n))
     variants.append(("CertBlockV1.api", "all:obj_cert", ["obj_cert"] * n))
     variants.append(("CertBlockV1.api", "all:cert_der", ["cert_der"] * n))
     variants.append(("CertBlockV1.api", "hashes", ["cert_der"] * n))
@@ -886,6 +902,7 @@ def _certblock_v1(t: Tally, task: dict, src: Src, names: list, nums: list, alg: 
                         cfg[f"rootCertificate{idx}File"] = fixtures.path(chain[0] + ".pem")
                         for j, c in enumerate(chain[1:]):
                             cfg[f"chainCertificate{idx}File{j}"] = fixtures.path(c + ".der")
+                    cfg = _reorder_cfg(cfg, label)
                     cb = CertBlockV1.from_config(cfg)
                 else:
                     cb = CertBlockV1(build_number=1)
@@ -931,6 +948,20 @@ def _certblock_v1(t: Tally, task: dict, src: Src, names: list, nums: list, alg: 
                 t.fail("C03.fuses", "v1", "wrong-fuse-words", dims, f"{what}: rkth_fuses {[hex(x) for x in fuses]} for {_hx(rkth)}", focus)
 
 
+def _reorder_cfg(cfg: dict, label: str) -> dict:
+    """Same mapping, keys inserted in another order (reversed / rotated by one)."""
+    items = list(cfg.items())
+    if label == "keys-reversed":
+        items = items[::-1]
+    elif label == "keys-rotated":
+        items = items[1:] + items[:1]
+        rc = [kv for kv in items if kv[0].startswith("rootCertificate")]
+        if len(rc) > 1:  # root slots as 1, 2, .., 0 in any case
+            rest = [kv for kv in items if not kv[0].startswith("rootCertificate")]
+            items = rest[:1] + rc[1:] + rc[:1] + rest[1:]
+    return dict(items)
+
+
 def _cb1_parse(cls, data: bytes, align: int):
     p = cls.parse(data)
     if align != 16:
@@ -955,6 +986,8 @@ def _certblock_v21(t: Tally, task: dict, src: Src, names: list, nums: list, alg:
     for label, encs, tr in assignments(spec, n):
         variants.append(("CertBlockV21.from_config", label, encs, tr))
     variants.append(("CertBlockV21.from_config", "auto-index", ["pub_pem"] * n, "path"))
+    variants.append(("CertBlockV21.from_config", "keys-reversed", ["pub_pem"] * n, "path"))
+    variants.append(("CertBlockV21.from_config", "keys-rotated", ["pub_pem"] * n, "path"))
     refused: set = set()
     for pid, label, encs, tr in variants:
         for idx in range(n):
@@ -981,6 +1014,7 @@ def _certblock_v21(t: Tally, task: dict, src: Src, names: list, nums: list, alg:
                         cfg["signPrivateKey"] = src.path(names[idx], "priv_pem")
                     else:
                         cfg["mainRootCertId"] = idx
+                    cfg = _reorder_cfg(cfg, label)
                     cb = CertBlockV21.from_config(cfg)
                 return cb.rkth, cb.export()
             r = call(build)
